@@ -50,10 +50,31 @@ class CircuitProgram:
         return "?"
 
     def loop_register(self, loop: ast.For) -> Optional[str]:
-        it = norm(loop.iter).replace(" ", "")
+        """"in": the loop visits every qubit of the input register; "in~": a subset selected by a run-time
+        condition (a filtered comprehension); None: an iterable outside the tables"""
+        e = loop.iter
+        for _ in range(6):
+            while isinstance(e, ast.Call) and isinstance(e.func, ast.Name) and e.func.id in ("list", "tuple", "sorted") and len(e.args) == 1:
+                e = e.args[0]
+            if isinstance(e, ast.Name):
+                b = [
+                    n.value
+                    for n in ast.walk(self.fi.node)
+                    if isinstance(n, ast.Assign) and len(n.targets) == 1 and isinstance(n.targets[0], ast.Name) and n.targets[0].id == e.id
+                ]
+                if len(b) != 1:
+                    return None
+                e = b[0]
+                continue
+            break
+        it = norm(e).replace(" ", "")
         for s in self.size_names:
             if it == f"range({s})":
                 return "in"
+        if isinstance(e, (ast.ListComp, ast.GeneratorExp, ast.SetComp)) and any(g.ifs for g in e.generators):
+            return "in~"
+        if isinstance(e, ast.Call) and isinstance(e.func, ast.Name) and e.func.id == "filter":
+            return "in~"
         return None
 
     def is_oracle_expr(self, e) -> bool:
@@ -130,7 +151,7 @@ class CircuitProgram:
             if reg is not None and isinstance(s.target, ast.Name):
                 lv[s.target.id] = reg
             elif isinstance(s.target, ast.Name):
-                lv[s.target.id] = "?"
+                lv[s.target.id] = "?loop"
             self._block(s.body, lv)
             return
         if isinstance(s, ast.If):
@@ -198,6 +219,10 @@ def state_at_first_oracle(events: List[Event], registers=("in", "out", "phase"))
 
 def apply(st: Dict[str, str], e: Event):
     g = e[0]
+    if len(e) == 2 and e[1] == "in~":
+        # a gate on part of the input register: only that register becomes unknown
+        st["in"] = "T"
+        return
     if g in TRANSFER and len(e) == 2:
         r = e[1]
         if r in st:
